@@ -343,11 +343,12 @@ Proof.
 Qed.
 
 Lemma amax_correct : forall s dims keepdim out,
-  (0 < zlen s \/ dims = []) ->
-  torch_reduce_shape s (Some dims) keepdim = Some out -> aten_amax s dims keepdim = Some out.
+  (0 < zlen s \/ dims = Some [] \/ dims = None) ->
+  torch_reduce_shape s dims keepdim = Some out -> aten_amax s dims keepdim = Some out.
 Proof.
-  intros s dims keepdim out [Hr | ->] H; unfold aten_amax.
+  intros s dims keepdim out [Hr | [-> | ->]] H; unfold aten_amax.
   - apply reduce_shape_correct; assumption.
+  - exact H.
   - exact H.
 Qed.
 
